@@ -283,6 +283,12 @@ impl<S: Read> Master<S> {
 //@@ from "let mut process = self.cli.output_options.get_processor(self.stdout.clone())?;"
 //@@ to "process.start(Titles::default())?;"
 //@@ must-precede "let mut index = 0;"
+//@@ must-contain "process = self.cli.set.create_process(process)?;"
+//@@ must-contain "let selection = Selection::from_str(selection)?;"
+//@@ must-contain "let sorter = Sorter::from_str(sorter)?;"
+//@@ must-contain "let group_by = Grouper::from_str(group_by)?;"
+//@@ must-contain "let filter = Filter::from_str(filter)?;"
+//@@ must-contain "let splitter = Splitter::from_str(splitter)?;"
 //@@ prologue
     pub fn go_assemble(&self) -> (r: Result<Box<dyn Process>>)
         requires self.cli_spec().no_overflow(),
